@@ -54,7 +54,7 @@ def budget(tier):
 json_attr = st.one_of(st.sampled_from(["m", "some text", ""]), st.integers(-5, 5), st.sampled_from([0.5, -2.25, 1e-3]), st.booleans(), st.none(),
                       st.lists(st.integers(0, 4), max_size=3), st.fixed_dictionaries({"k": st.lists(st.sampled_from(["a", 1, 2.5]), max_size=2)}))
 nc_attr = st.one_of(st.sampled_from(["m", "some text", "K"]), st.integers(-5, 5), st.sampled_from([0.5, -2.25]), st.lists(st.integers(0, 4), min_size=2, max_size=3),
-                    st.lists(st.sampled_from([0.5, 1.5, 2.0]), min_size=2, max_size=3))
+                    st.lists(st.sampled_from([0.5, 1.5, 2.0]), min_size=2, max_size=3), st.just([]))      # (an empty list is an entry too: it reads back as an empty array)
 attr_names = st.sampled_from(["units", "long_name", "comment", "scale", "history", "note", "name"])
 
 
